@@ -177,6 +177,25 @@ func gunYAML(kv map[string]string, csvFile, jsonFile string) string {
 						// <Header>/<modifier>/… is the mapping value `Header|modifier|…`
 						fmt.Fprintf(&b, "      - \"type\": \"var/header\"\n        \"mapping\": {%s: %s}\n", yq(kvp[0]), yq(strings.ReplaceAll(kvp[1], "/", "|")))
 					}
+				case 'J', 'H':
+					// several mapping entries in ONE extractor
+					var es []string
+					for _, e := range strings.Split(p[1:], "&") {
+						kvp := strings.SplitN(e, "=", 2)
+						if len(kvp) != 2 {
+							continue
+						}
+						if p[0] == 'J' {
+							es = append(es, yq(kvp[0])+": "+yq("$."+kvp[1]))
+						} else {
+							es = append(es, yq(kvp[0])+": "+yq(strings.ReplaceAll(kvp[1], "/", "|")))
+						}
+					}
+					typ := "var/jsonpath"
+					if p[0] == 'H' {
+						typ = "var/header"
+					}
+					fmt.Fprintf(&b, "      - \"type\": %s\n        \"mapping\": {%s}\n", yq(typ), strings.Join(es, ", "))
 				case 'a':
 					assertYAML(&b, []string{"s" + p[1:]})
 				case 't':
